@@ -18,12 +18,12 @@ def bits_for(cap):
 class Ctx:
     """symbolic pre-state of one configuration, with Inv assumed"""
 
-    def __init__(s, env, N, cap, assume_inv=True, heap_lens=(9, 10)):
+    def __init__(s, env, N, cap, assume_inv=True, heap_lens=(9, 10), fixed=None):
         s.env = env
         s.N, s.cap = N, cap
         s.w = env.world(N, cap, heap_lens=tuple(heap_lens))
         s.vm = s.w.vm
-        st, y = s.w.symbolic()
+        st, y = s.w.symbolic(fixed=fixed)
         s.y = y
         s.pre = st
         s.inv_pre = inv(s.w, st)
